@@ -169,6 +169,25 @@ Fixpoint assign_levels_loop (gs : list gate) (levels : list nat) (mx : nat)
       (level :: ls, mx', fl)
   end.
 
+(* Levels are unbounded naturals here.  In Go, Level is uint32 and the
+   per-wire scratch array is []Level: no wrap below 2^32 AND levels.  The
+   variant below stores [wrap out] in the per-wire array (wrap = identity is
+   the code as it is; wrap = mod 2^16 is the regression record
+   GmwProof.level_wrap16_refuted: a consumer of an AND of depth 65535 gets a
+   level that is not above its producer's). *)
+Fixpoint assign_levels_loop_w (wrap : nat -> nat) (gs : list gate) (levels : list nat) (mx : nat)
+  : list nat * nat * list nat :=
+  match gs with
+  | [] => ([], mx, levels)
+  | g :: t =>
+      let l0 := nth (gin0 g) levels 0 in
+      let level := match gop g with INV => l0 | _ => Nat.max l0 (nth (gin1 g) levels 0) end in
+      let out := if is_and g then S level else level in
+      let '(ls, mx', fl) := assign_levels_loop_w wrap t (upd levels (gout g) (wrap out)) (Nat.max mx out) in
+      (level :: ls, mx', fl)
+  end.
+Definition wrap16 (l : nat) : nat := N.to_nat (N.of_nat l mod 65536)%N.
+
 Definition assign_levels (c : circuit) : list nat * nat * list nat :=
   assign_levels_loop (gates c) (repeat 0 (nwires c)) 0.
 
